@@ -800,23 +800,23 @@ def c_iter_adapt(m, st, f, a):
         if base is None: raise Inconclusive('iterator adaptor %s on %r' % (op, sv(it)))
     if op == 'by_ref': return a[0]
     if op == 'rev':
-        if base.ops: raise Inconclusive('rev after adaptors')
+        if base.ops or base.src is not None: raise Inconclusive('rev after adaptors')
         return Iter(list(reversed(base.items[base.pos:])))
     if op in ('take', 'skip'):
         n = conc_int(a[1])
         if n is None: n = m.concretize(st, a[1], range(0, 64))
-        if base.ops: return Iter(base.items, base.pos, base.ops + ((op, n),), base.count)
+        if base.ops or base.src is not None: return Iter(base.items, base.pos, base.ops + ((op, n),), base.count, base.src)
         rest = base.items[base.pos:]
         return Iter(rest[:n] if op == 'take' else rest[n:])
     if op in ('chain', 'zip'):
         o = a[1]
         o = sv(o) if isinstance(o, Ref) else o
         if isinstance(o, Agg): o = Iter(list(o.f))
-        if base.ops or o.ops: raise Inconclusive(op + ' after adaptors')
+        if base.ops or o.ops or base.src is not None or o.src is not None: raise Inconclusive(op + ' after adaptors')
         x, y = base.items[base.pos:], o.items[o.pos:]
         return Iter(x + y) if op == 'chain' else Iter([Agg([p, q]) for p, q in zip(x, y)])
     arg = a[1] if len(a) > 1 else None
-    return Iter(base.items, base.pos, base.ops + ((op, arg),), base.count)
+    return Iter(base.items, base.pos, base.ops + ((op, arg),), base.count, base.src)
 
 
 class IterDriver(Native):
